@@ -5,7 +5,6 @@ native Lean implementations) against symbolchain.Bip32 / BufferWriter / facade.{
 the property on the implementation against an independent statement of SLIP-10 / BIP39 / Ed25519 key derivation written here
 with hmac, hashlib, struct and small self-contained Keccak-512 and edwards25519 routines.
 """
-import ast
 import hashlib
 import hmac
 import json
@@ -45,134 +44,180 @@ SHIPPED_CURVES = {'symbol': 'ed25519', 'nem': 'ed25519-keccak'}
 COIN_TYPES = {'symbol': 4343, 'nem': 43}
 
 # region translator
+#
+# Every constant written to Generated/C16Consts.lean is read off the *running* code of the working tree, never off the spelling
+# of its source: public names through translate/pyruntime.py (fresh interpreter), everything else by calling public functions
+# on crafted inputs and identifying the one candidate that reproduces what they return. A behaviour-preserving refactoring
+# therefore yields the same file; a change of a value yields a different file and breaks `source_constants_tied`.
+
+_PROBE_SEED = bytes(range(1, 41))
+_PROBE_INDICES = [0x010203, 0, 5, 0x7FFFFFFF, 0x01000000]
+_SUFFIX_CANDIDATES = [' seed', 'seed', ' Seed', ' SEED', '_seed', '-seed', '', ' seed ', 'seed ', ' key', ' master seed', ' master']
+_PROBE_ACCOUNTS = (7, 1000003)
 
 
-def _find_class(tree, name):
-	for node in tree.body:
-		if isinstance(node, ast.ClassDef) and node.name == name:
-			return node
-	raise ValueError(f'class {name} not found')
+def _mac_of(node):
+	return bytes(node.private_key.bytes) + bytes(node.chain_code)
 
 
-def _find_function(owner, name):
-	for node in owner.body:
-		if isinstance(node, ast.FunctionDef) and node.name == name:
-			return node
-	raise ValueError(f'function {name} not found')
+def _probe_root(problems):
+	"""Root label: the suffix s with from_seed(seed) = HMAC-SHA512((curve + s) utf8, seed), the same for several curve names;
+	and where the MAC is cut into private key and chain code."""
+	from symbolchain.Bip32 import Bip32
+	found = None
+	key_size = 0
+	for curve in ('ed25519', 'zq', '', 'ed25519-keccak'):
+		factory = Bip32(curve)
+		node = factory.from_seed(_PROBE_SEED)
+		mac = _mac_of(node)
+		key_size = len(node.private_key.bytes)
+		candidates = list(_SUFFIX_CANDIDATES)
+		label = getattr(factory, 'root_hmac_key', None)  # a public attribute today; only ever used as one more candidate
+		if isinstance(label, (bytes, bytearray)) and bytes(label).startswith(curve.encode('utf8')):
+			try:
+				candidates.insert(0, bytes(label)[len(curve.encode('utf8')):].decode('utf8'))
+			except UnicodeDecodeError:
+				pass
+		matching = [suffix for suffix in dict.fromkeys(candidates) if hmac.new((curve + suffix).encode('utf8'), _PROBE_SEED, hashlib.sha512).digest() == mac]
+		if 1 != len(matching):
+			problems.append(f'translator: root node for curve "{curve}" is HMAC-SHA512 under {len(matching)} of the candidate labels "<curve><suffix>"')
+			return '', key_size
+		if found is not None and found != matching[0]:
+			problems.append(f'translator: root label suffix depends on the curve name ("{found}" / "{matching[0]}")')
+			return '', key_size
+		found = matching[0]
+	return found, key_size
 
 
-def _path_template(path, class_name, problems):
-	"""Reads `return [44, <coin> if 'mainnet' == self.network.name else <other>, account_id, 0, 0]`."""
-	from translate import pyconst
-	tree = pyconst.parse(path)
-	owner = _find_class(tree, class_name)
-	curve = pyconst.class_constants(path, class_name).get('BIP32_CURVE_NAME')
-	function = _find_function(owner, 'bip32_path')
-	argument = function.args.args[1].arg
-	result = {'curve': curve}
-	returns = [node for node in ast.walk(function) if isinstance(node, ast.Return)]
-	# plain local bindings `name = <expression>` are read through (so naming the coin type first changes nothing)
-	local_bindings = {
-		node.targets[0].id: node.value for node in ast.walk(function)
-		if isinstance(node, ast.Assign) and 1 == len(node.targets) and isinstance(node.targets[0], ast.Name)}
-	try:
-		if 1 != len(returns) or not isinstance(returns[0].value, ast.List):
-			raise ValueError('bip32_path does not return one list literal')
-		elements = [
-			local_bindings[element.id] if isinstance(element, ast.Name) and element.id in local_bindings else element
-			for element in returns[0].value.elts]
-		if 5 != len(elements):
-			raise ValueError(f'bip32_path returns {len(elements)} elements')
-		result['purpose'] = pyconst.const_eval(elements[0])
-		choice = elements[1]
-		if not isinstance(choice, ast.IfExp) or not isinstance(choice.test, ast.Compare) or 1 != len(choice.test.ops):
-			raise ValueError('coin type is not a conditional expression')
-		if not isinstance(choice.test.ops[0], ast.Eq):
-			raise ValueError('coin type condition is not an equality')
-		sides = [choice.test.left, choice.test.comparators[0]]
-		names = [side.value for side in sides if isinstance(side, ast.Constant)]
-		attributes = [ast.unparse(side) for side in sides if not isinstance(side, ast.Constant)]
-		if 1 != len(names) or ['self.network.name'] != attributes:
-			raise ValueError('coin type condition is not <name> == self.network.name')
-		result['mainnet_name'] = names[0]
-		result['mainnet_coin'] = pyconst.const_eval(choice.body)
-		result['other_coin'] = pyconst.const_eval(choice.orelse)
-		if not isinstance(elements[2], ast.Name) or argument != elements[2].id:
-			raise ValueError('third path element is not the account id')
-		result['tail'] = [pyconst.const_eval(elements[3]), pyconst.const_eval(elements[4])]
-	except ValueError as ex:
-		problems.append(f'translator: {class_name}.bip32_path has an unexpected shape: {ex}')
-		result.setdefault('purpose', 0)
-		result.setdefault('mainnet_name', '')
-		result.setdefault('mainnet_coin', 0)
-		result.setdefault('other_coin', 0)
-		result.setdefault('tail', [])
-	return result
-
-
-def _derive_one_constants(path, problems):
-	from translate import pyconst
-	tree = pyconst.parse(path)
-	function = _find_function(_find_class(tree, 'Bip32Node'), 'derive_one')
-	argument = function.args.args[1].arg
+def _probe_derive_one(problems):
+	"""derive_one(i) = HMAC-SHA512(chain code, prefix ‖ private key ‖ (flag | i) as `width` bytes in `order`): the one
+	(order, prefix, flag, width) that reproduces the children of a fixed node for all probe indices."""
+	from symbolchain.Bip32 import Bip32
 	result = {'order': '', 'prefix': [0, 0], 'flag': 0, 'width': 0}
+	node = Bip32('probe').from_seed(_PROBE_SEED)
+	key, chain = bytes(node.private_key.bytes), bytes(node.chain_code)
 	try:
-		calls = [node for node in ast.walk(function) if isinstance(node, ast.Call)]
-		writers = [call for call in calls if isinstance(call.func, ast.Name) and 'BufferWriter' == call.func.id]
-		if 1 != len(writers):
-			raise ValueError('no single BufferWriter(...) call')
-		result['order'] = pyconst.const_eval(writers[0].args[0]) if writers[0].args else 'little'
-		writes = [call for call in calls if isinstance(call.func, ast.Attribute) and call.func.attr in ('write_int', 'write_bytes')]
-		writes.sort(key=lambda call: (call.lineno, call.col_offset))
-		if ['write_int', 'write_bytes', 'write_int'] != [call.func.attr for call in writes]:
-			raise ValueError('writes are not write_int, write_bytes, write_int')
-		result['prefix'] = [pyconst.const_eval(writes[0].args[0]), pyconst.const_eval(writes[0].args[1])]
-		index = writes[2].args[0]
-		if not isinstance(index, ast.BinOp) or not isinstance(index.op, ast.BitOr):
-			raise ValueError('index is not <flag> | identifier')
-		sides = [index.left, index.right]
-		flags = [pyconst.const_eval(side) for side in sides if isinstance(side, ast.Constant)]
-		names = [side.id for side in sides if isinstance(side, ast.Name)]
-		if 1 != len(flags) or [argument] != names:
-			raise ValueError('index is not <flag> | identifier')
-		result['flag'] = flags[0]
-		result['width'] = pyconst.const_eval(writes[2].args[1])
-	except (ValueError, IndexError) as ex:
-		problems.append(f'translator: Bip32Node.derive_one has an unexpected shape: {ex}')
+		targets = [_mac_of(node.derive_one(index)) for index in _PROBE_INDICES]
+	except Exception as ex:  # pylint: disable=broad-except
+		problems.append(f'translator: derive_one raised {type(ex).__name__} on a probe index below 2^31')
+		return result
+	keyed = hmac.new(chain, digestmod=hashlib.sha512)
+	prefixes = [b''] + [bytes([value]) for value in range(256)] + [b'\x00\x00', b'\x00\x01', b'\x01\x00']
+	flags = [0] + [1 << bit for bit in range(64)]
+	survivors = []
+	for prefix in prefixes:
+		with_key = keyed.copy()
+		with_key.update(prefix + key)
+		for order in ('big', 'little'):
+			for width in range(1, 9):
+				for flag in flags:
+					value = flag | _PROBE_INDICES[0]
+					if value >= 1 << (8 * width):
+						continue
+					attempt_mac = with_key.copy()
+					attempt_mac.update(value.to_bytes(width, order))
+					if attempt_mac.digest() == targets[0]:
+						survivors.append((order, prefix, flag, width))
+	confirmed = []
+	for order, prefix, flag, width in survivors:
+		agrees = True
+		for index, target in zip(_PROBE_INDICES[1:], targets[1:]):
+			value = flag | index
+			if value >= 1 << (8 * width) or hmac.new(chain, prefix + key + value.to_bytes(width, order), hashlib.sha512).digest() != target:
+				agrees = False
+				break
+		if agrees:
+			confirmed.append((order, prefix, flag, width))
+	if 1 != len(confirmed):
+		problems.append(
+			f'translator: {len(confirmed)} candidates (byte order, prefix, flag, width) reproduce derive_one as HMAC(chain code, prefix ‖ key ‖ (flag | i)) '
+			f'{[(order, prefix.hex(), hex(flag), width) for order, prefix, flag, width in confirmed[:4]]}')
+		return result
+	order, prefix, flag, width = confirmed[0]
+	return {'order': order, 'prefix': [int.from_bytes(prefix, order), len(prefix)], 'flag': flag, 'width': width}
+
+
+def _probe_facade(facade_name, problems):
+	"""bip32_path read off its results for several network names and two account ids: purpose, where the account id goes, the
+	tail, and which network name selects which coin type."""
+	import datetime
+	import importlib
+	facade_class = getattr(importlib.import_module(f'symbolchain.facade.{facade_name}'), facade_name)
+	network_module = importlib.import_module('symbolchain.symbol.Network' if 'SymbolFacade' == facade_name else 'symbolchain.nem.Network')
+	shipped = [network.name for network in network_module.Network.NETWORKS]
+	names = list(shipped)
+	for name in shipped:
+		names += [name.upper(), name.capitalize(), name + ' ', 'x' + name, name[:-1]]
+	names += ['', 'private', 'mijin']
+	names = list(dict.fromkeys(names))
+	epoch = datetime.datetime(2020, 1, 1, tzinfo=datetime.timezone.utc)
+	result = {'purpose': 0, 'mainnet_name': '', 'mainnet_coin': 0, 'other_coin': 0, 'tail': []}
+
+	def facade_for(name):
+		if name in shipped:
+			return facade_class(name)
+		try:
+			return facade_class(network_module.Network(name, 0x68, epoch))
+		except Exception:  # pylint: disable=broad-except
+			facade = facade_class.__new__(facade_class)
+			facade.network = type('NetworkStub', (), {'name': name, 'identifier': 0x68})()
+			return facade
+
+	shapes = {}
+	for name in names:
+		facade = facade_for(name)
+		first, second = (list(facade.bip32_path(account)) for account in _PROBE_ACCOUNTS)
+		positions = [position for position, (left, right) in enumerate(zip(first, second)) if left != right]
+		if len(first) != len(second) or 1 != len(positions) or (first[positions[0]], second[positions[0]]) != _PROBE_ACCOUNTS:
+			problems.append(f'translator: {facade_name}.bip32_path on "{name}" does not place the account id at one position: {first} / {second}')
+			return result
+		shapes[name] = (positions[0], first)
+	layouts = {(position, len(path), path[0], tuple(path[position + 1:])) for position, path in shapes.values()}
+	if 1 != len(layouts):
+		problems.append(f'translator: {facade_name}.bip32_path has network dependent layouts {sorted(layouts)}')
+		return result
+	position, _, purpose, tail = next(iter(layouts))
+	if 2 != position:
+		problems.append(f'translator: {facade_name}.bip32_path places the account id at position {position}, not after purpose and coin type')
+		return result
+	coins = {name: path[1] for name, (_, path) in shapes.items()}
+	values = sorted(set(coins.values()), key=lambda coin: -list(coins.values()).count(coin))
+	result.update({'purpose': purpose, 'tail': list(tail), 'other_coin': values[0], 'mainnet_coin': values[0]})
+	special = [name for name, coin in coins.items() if coin != values[0]]
+	if 1 != len(special):
+		problems.append(f'translator: {facade_name}.bip32_path: {len(special)} of the probed network names select a coin type of their own {special[:5]}')
+		if not special:
+			return result
+	result['mainnet_name'] = special[0]
+	result['mainnet_coin'] = coins[special[0]]
 	return result
-
-
-def _root_suffix(path, problems):
-	from translate import pyconst
-	tree = pyconst.parse(path)
-	function = _find_function(_find_class(tree, 'Bip32'), '__init__')
-	for node in ast.walk(function):
-		if isinstance(node, ast.Assign) and 'self.root_hmac_key' == ast.unparse(node.targets[0]):
-			value = node.value
-			if (
-				isinstance(value, ast.Call) and isinstance(value.func, ast.Attribute) and 'encode' == value.func.attr
-				and isinstance(value.func.value, ast.BinOp) and isinstance(value.func.value.op, ast.Add)
-				and isinstance(value.func.value.left, ast.Name) and 'curve_name' == value.func.value.left.id
-				and isinstance(value.func.value.right, ast.Constant)):
-				return value.func.value.right.value
-	problems.append('translator: Bip32.__init__ does not set root_hmac_key = (curve_name + <suffix>).encode(...)')
-	return ''
 
 
 def translate(_ctx):
-	"""Generated/C16Consts.lean: constants of the anchored files, re-read from the working tree on every run."""
-	from translate import pyconst
+	"""Generated/C16Consts.lean: constants of the anchored code, obtained from the running code of the working tree on every run."""
+	from translate import pyconst, pyruntime
 
-	from .common import LEAN, REPO, write_if_changed
-	base = os.path.join(REPO, 'sdk/python/symbolchain')
+	from .common import LEAN, REPO, setup_paths, write_if_changed
 	problems = []
-	key_size = pyconst.class_constants(os.path.join(base, 'CryptoTypes.py'), 'PrivateKey').get('SIZE', 0)
-	derive = _derive_one_constants(os.path.join(base, 'Bip32.py'), problems)
-	suffix = _root_suffix(os.path.join(base, 'Bip32.py'), problems)
-	symbol = _path_template(os.path.join(base, 'facade/SymbolFacade.py'), 'SymbolFacade', problems)
-	nem = _path_template(os.path.join(base, 'facade/NemFacade.py'), 'NemFacade', problems)
+	suffix, key_size = '', 0
+	derive = {'order': '', 'prefix': [0, 0], 'flag': 0, 'width': 0}
+	templates = {name: {'purpose': 0, 'mainnet_name': '', 'mainnet_coin': 0, 'other_coin': 0, 'tail': []} for name in ('SymbolFacade', 'NemFacade')}
+	curves = {'SymbolFacade': '', 'NemFacade': ''}
+	try:
+		setup_paths()
+		suffix, key_size = _probe_root(problems)
+		derive = _probe_derive_one(problems)
+		for facade_name in templates:
+			templates[facade_name] = _probe_facade(facade_name, problems)
+			public = pyruntime.values(REPO, f'symbolchain.facade.{facade_name}', [f'{facade_name}.BIP32_CURVE_NAME'])
+			curves[facade_name] = public[f'{facade_name}.BIP32_CURVE_NAME']
+		declared = pyruntime.values(REPO, 'symbolchain.CryptoTypes', ['PrivateKey.SIZE'])['PrivateKey.SIZE']
+		if declared != key_size:
+			problems.append(f'translator: nodes carry {key_size}-byte private keys but PrivateKey.SIZE is {declared}')
+	except Exception as ex:  # pylint: disable=broad-except
+		problems.append(f'translator: probing the implementation failed: {type(ex).__name__}: {str(ex)[:300]}')
 	lines = [
-		'/- generated by harness/c16.py from sdk/python/symbolchain/{Bip32,CryptoTypes}.py and facade/{SymbolFacade,NemFacade}.py; do not edit -/',
+		'/- generated by harness/c16.py from the behaviour of symbolchain.Bip32 and facade.{SymbolFacade,NemFacade} in the working tree; do not edit -/',
 		'namespace SymbolVerif.Generated.C16',
 		f'def privateKeySize : Nat := {key_size}',
 		f'def writerByteOrder : String := {pyconst.lean_string(derive["order"])}',
@@ -182,9 +227,10 @@ def translate(_ctx):
 		f'def indexWidth : Nat := {derive["width"]}',
 		f'def rootKeySuffix : String := {pyconst.lean_string(suffix)}',
 	]
-	for tag, template in (('symbol', symbol), ('nem', nem)):
+	for tag, facade_name in (('symbol', 'SymbolFacade'), ('nem', 'NemFacade')):
+		template = templates[facade_name]
 		lines += [
-			f'def {tag}CurveName : String := {pyconst.lean_string(template["curve"] or "")}',
+			f'def {tag}CurveName : String := {pyconst.lean_string(str(curves[facade_name]))}',
 			f'def {tag}PathPurpose : Nat := {template["purpose"]}',
 			f'def {tag}MainnetName : String := {pyconst.lean_string(template["mainnet_name"])}',
 			f'def {tag}MainnetCoinType : Nat := {template["mainnet_coin"]}',
